@@ -21,6 +21,11 @@ Theorem C14_geo_enu_geo base g : enu_to_geo base (geo_to_enu base g) = ecef_to_g
 Proof. exact (geo_enu_geo base g). Qed.
 Print Assumptions C14_geo_enu_geo.
 
+(* re-basing a local position from base1 to base2 gives exactly the local position of the same point about base2 *)
+Theorem C14_rebase base1 base2 g : enu_rebase base1 base2 (geo_to_enu base1 g) = geo_to_enu base2 g.
+Proof. exact (rebase_exact base1 base2 g). Qed.
+Print Assumptions C14_rebase.
+
 (* the local coordinates of the base itself are (0,0,0) *)
 Theorem C14_base_origin base : geo_to_enu base base = (0, 0, 0).
 Proof. exact (base_origin base). Qed.
